@@ -99,6 +99,65 @@ func run(c *vf.Ctx) {
 			c.Sample(map[string]any{"keysize": g.ks, "sector": g.sec, "len": g.n, "key_classes": len(keys)})
 		}
 	})
+	// the tweak doubling itself on boundary values: the tweak of a data unit is AES_k2(sector),
+	// so carry patterns such as a 32- or 64-bit word of all ones with a carry coming in are
+	// reached through Encrypt only for about one sector in 10^8; enumerate them directly
+	// against the big-integer model (x -> 2x mod x^128+x^7+x^2+x+1, little-endian bytes).
+	{
+		pats := [][16]byte{}
+		add := func(t [16]byte) { pats = append(pats, t) }
+		var zero, ones [16]byte
+		for i := range ones {
+			ones[i] = 0xff
+		}
+		add(zero)
+		add(ones)
+		for pos := 0; pos < 128; pos++ {
+			for _, k := range []int{1, 2, 7, 8, 9, 15, 16, 17, 31, 32, 33, 63, 64, 65, 96, 127, 128} {
+				// a run of k one-bits whose highest bit is at position pos (and its complement)
+				if k > pos+1 {
+					continue
+				}
+				var t, c [16]byte
+				for b := pos - k + 1; b <= pos; b++ {
+					t[b/8] |= 1 << uint(b%8)
+				}
+				for i := range c {
+					c[i] = ^t[i]
+				}
+				add(t)
+				add(c)
+				// the run plus the top bit (reduction) and plus bit 0
+				t2 := t
+				t2[15] |= 0x80
+				add(t2)
+				t3 := t
+				t3[0] |= 1
+				add(t3)
+			}
+		}
+		for i := 0; i < 64*c.V(); i++ {
+			var t [16]byte
+			copy(t[:], c.Bytes("xts-tweak", i, 16))
+			add(t)
+		}
+		for _, t := range pats {
+			got := t
+			want := t
+			// chains of 300 doublings from each start (a 4 KiB data unit needs 255)
+			for j := 0; j < 300; j++ {
+				xts.VerifC13Mul2(&got)
+				want = xtsref.Double(want)
+				c.Eval(1)
+				if got != want {
+					c.Violation("tweak doubling (mul2) != multiplication by x in GF(2^128)", map[string]any{"start": fmt.Sprintf("%x", t), "step": j, "got": fmt.Sprintf("%x", got), "want": fmt.Sprintf("%x", want)})
+					break
+				}
+			}
+			c.Nontrivial("mul2/" + fmt.Sprintf("%x", t))
+		}
+		c.Set("mul2_start_patterns", len(pats))
+	}
 	// argument rules: lengths that are not a multiple of 16 and short dst must panic; zero length is a no-op or panic but never writes
 	key := c.Bytes("k", 0, 32)
 	ci, _ := xts.NewCipher(aes.NewCipher, key)
